@@ -34,6 +34,8 @@
 -/
 import Lattigo.Proofs.PolyEvalDepth
 import Lattigo.Proofs.PolyEvalScale
+import Lattigo.Props.C13Gen
+import Lattigo.Props.C13Ring
 import Mathlib.Tactic.NormNum.Prime
 
 namespace Lattigo.Props.C13
